@@ -997,3 +997,20 @@ package httpserver
 //@   modifies httpContext.siteConfigs, E:*github.com/tmpim/casket/caskethttp/httpserver.SiteConfig, MV:map[string]*github.com/tmpim/casket/caskethttp/httpserver.SiteConfig, MD:map[string]*github.com/tmpim/casket/caskethttp/httpserver.SiteConfig, Config.Issuers
 //@   ensures [a_site_configuration_with_its_tls_manager_and_issuer] result != nil && result.TLS != nil && result.TLS.Issuer != nil && result.TLS.Manager != nil
 
+
+//@ unit config_select frames=on props=C12,C19 nilchecks=on filter=`httpserver\.ConfigSelector\)\.Select$`
+//@ // which rule of a directive applies to a request (status, rewrite, ...): one that matches, and among the matching ones
+//@ // the one with the longest base path, the earliest of those; none only when none matches
+//@ extern invoke:(github.com/tmpim/casket/caskethttp/httpserver.RequestMatcher).Match
+//@   pure
+//@ extern invoke:(github.com/tmpim/casket/caskethttp/httpserver.HandlerConfig).BasePath
+//@   pure
+//@ func (ConfigSelector).Select
+//@   requires forall(k, 0, len(c), c[k] != nil)
+//@   ensures [a_matching_rule] config != nil ==> exists(k, 0, len(c), config == c[k] && c[k].Match(r))
+//@   ensures [none_only_if_none_matches] config == nil ==> forall(k, 0, len(c), !c[k].Match(r))
+//@   ensures [longest_base_path_among_the_matching] forall(k, 0, len(c), c[k].Match(r) ==> (config != nil && len(config.BasePath()) >= len(c[k].BasePath())))
+//@   loop 1 invariant 0 <= #i && #i <= len(c)
+//@   loop 1 invariant config != nil ==> exists(k, 0, #i, config == c[k] && c[k].Match(r))
+//@   loop 1 invariant config == nil ==> forall(k, 0, #i, !c[k].Match(r))
+//@   loop 1 invariant forall(k, 0, #i, c[k].Match(r) ==> (config != nil && len(config.BasePath()) >= len(c[k].BasePath())))
